@@ -173,7 +173,7 @@ fn c03p_pipeline_witness() {
 // =================================================================================================
 // C03: the two file-writing kernels of ZiPatch::apply (delete / expand and the zero-fill after add),
 // run over the in-memory file model (support/memfs.rs, wired in through registry.TRANSFORMS).
-// Whole-`apply` harnesses were written and are kept in notes/apply_harnesses_not_registered.rs.txt
+// Whole-`apply` harnesses follow further down (session 3); see DESIGN.md section 4 for which of them decide
 // with the measured reason they do not decide.
 // =================================================================================================
 use crate::verif_support::memfs;
@@ -797,265 +797,4 @@ fn c04_create_new_tree_empty() {
     assert!(next_file_op(&mut c).is_none());
     kani::cover!(true);
     core::mem::forget(patch);
-}
-
-// ---- zz probes (temporary) ----
-fn zz_spin(n: usize) { let mut k = 0; while k < n { k += 1; } }
-fn zz_patch_td() {
-    memfs::reset();
-    let off: u32 = kani::any();
-    let mut p = PB::new();
-    p.sqpk(b'T', &target_info_body(2));
-    p.sqpk(b'D', &delete_body(0x0a, 0x0102, 3, off, 1));
-    p.eof();
-}
-#[kani::proof]
-#[kani::unwind(160)]
-fn zz_a() {
-    zz_patch_td();
-    let mut f = File::open("p.patch").unwrap();
-    PatchHeader::read(&mut f).unwrap();
-    let c1 = PatchChunk::read(&mut f).unwrap();
-    match c1.chunk_type {
-        ChunkType::Sqpk(pc) => match pc.operation {
-            SqpkOperation::TargetInfo(t) => { if get_platform_string(&t.platform).len() == 3 { zz_spin(4); } else { zz_spin(200); } }
-            _ => { zz_spin(200); }
-        },
-        _ => { zz_spin(200); }
-    }
-}
-#[kani::proof]
-#[kani::unwind(160)]
-fn zz_b() {
-    zz_patch_td();
-    let mut f = File::open("p.patch").unwrap();
-    PatchHeader::read(&mut f).unwrap();
-    let mut ti: Option<SqpkTargetInfo> = None;
-    let mut n = 0;
-    loop {
-        let c = PatchChunk::read(&mut f).unwrap();
-        match c.chunk_type {
-            ChunkType::Sqpk(pc) => match pc.operation {
-                SqpkOperation::TargetInfo(t) => { ti = Some(t); }
-                SqpkOperation::DeleteData(d) => { if get_platform_string(&ti.as_ref().unwrap().platform).len() == 3 { zz_spin(4); } else { zz_spin(200); } if d.main_id == 10 { zz_spin(2); } else { zz_spin(200); } }
-                _ => { zz_spin(200); }
-            },
-            ChunkType::EndOfFile => { break; }
-            _ => { zz_spin(200); }
-        }
-        n += 1;
-    }
-    if n == 2 { zz_spin(3); } else { zz_spin(200); }
-}
-
-fn zz_t_bytes() -> [u8; 148] {
-    let mut b = [0u8; 148];
-    b[3] = 128; b[4] = b'S'; b[5] = b'Q'; b[6] = b'P'; b[7] = b'K'; b[11] = 128; b[12] = b'T';
-    b[13 + 4] = 2; b[13 + 5] = 0xFF; b[13 + 6] = 0xFF;
-    b
-}
-#[kani::proof]
-#[kani::unwind(160)]
-fn zz_v1() {
-    let b = zz_t_bytes();
-    let mut c = Cursor::new(&b[..]);
-    let c1 = PatchChunk::read(&mut c).unwrap();
-    match c1.chunk_type { ChunkType::Sqpk(_pc) => { zz_spin(4); } _ => { zz_spin(200); } }
-}
-#[kani::proof]
-#[kani::unwind(160)]
-fn zz_v2() {
-    let b = zz_t_bytes();
-    let mut c = Cursor::new(&b[..]);
-    let c1 = PatchChunk::read(&mut c).unwrap();
-    match c1.chunk_type { ChunkType::Sqpk(pc) => match pc.operation { SqpkOperation::TargetInfo(_t) => { zz_spin(4); } _ => { zz_spin(200); } }, _ => { zz_spin(4); } }
-}
-#[kani::proof]
-#[kani::unwind(160)]
-fn zz_v4() {
-    let b = zz_t_bytes();
-    let mut c = Cursor::new(&b[8..]);
-    let pc = SqpkChunk::read(&mut c).unwrap();
-    match pc.operation { SqpkOperation::TargetInfo(_t) => { zz_spin(4); } _ => { zz_spin(200); } }
-}
-#[kani::proof]
-#[kani::unwind(160)]
-fn zz_v5() {
-    let b = zz_t_bytes();
-    let mut c = Cursor::new(&b[13..]);
-    let t = SqpkTargetInfo::read(&mut c).unwrap();
-    if get_platform_string(&t.platform).len() == 3 { zz_spin(4); } else { zz_spin(200); }
-}
-#[kani::proof]
-#[kani::unwind(160)]
-fn zz_v6() {
-    let b = zz_t_bytes();
-    let mut c = Cursor::new(&b[13..]);
-    let t = SqpkTargetInfo::read(&mut c).unwrap();
-    let o = Some(t);
-    if get_platform_string(&o.as_ref().unwrap().platform).len() == 3 { zz_spin(4); } else { zz_spin(200); }
-}
-#[kani::proof]
-#[kani::unwind(160)]
-fn zz_v7() {
-    let b = zz_t_bytes();
-    let mut c = Cursor::new(&b[4..]);
-    let m = <[u8; 4]>::read_le(&mut c).unwrap();
-    if m == *b"SQPK" { zz_spin(4); } else { zz_spin(200); }
-}
-#[kani::proof]
-#[kani::unwind(160)]
-fn zz_v8() {
-    let b = zz_t_bytes();
-    let mut c = Cursor::new(&b[4..]);
-    let m = <[u8; 4]>::read_le(&mut c).unwrap();
-    if m[0] == b'S' && m[1] == b'Q' && m[2] == b'P' && m[3] == b'K' { zz_spin(4); } else { zz_spin(200); }
-}
-#[kani::proof]
-#[kani::unwind(160)]
-fn zz_v9() {
-    let b = zz_t_bytes();
-    let mut c = Cursor::new(&b[4..]);
-    let t = ChunkType::read_le(&mut c).unwrap();
-    match t { ChunkType::Sqpk(_pc) => { zz_spin(4); } _ => { zz_spin(200); } }
-}
-#[kani::proof]
-#[kani::unwind(160)]
-fn zz_v10() {
-    let m: [u8; 4] = [b'S', b'Q', b'P', b'K'];
-    let n = core::hint::black_box(m);
-    if n == *b"SQPK" { zz_spin(4); } else { zz_spin(200); }
-}
-#[kani::proof]
-#[kani::unwind(160)]
-fn zz_v11() {
-    zz_patch_td();
-    let mut f = File::open("p.patch").unwrap();
-    f.seek(SeekFrom::Start(12 + 13)).unwrap();
-    let t = SqpkTargetInfo::read(&mut f).unwrap();
-    if get_platform_string(&t.platform).len() == 3 { zz_spin(4); } else { zz_spin(200); }
-}
-#[kani::proof]
-#[kani::unwind(160)]
-fn zz_v12() {
-    memfs::reset();
-    let mut p = PB::new();
-    p.sqpk(b'T', &target_info_body(2));
-    p.eof();
-    let mut f = File::open("p.patch").unwrap();
-    PatchHeader::read(&mut f).unwrap();
-    let c1 = PatchChunk::read(&mut f).unwrap();
-    match c1.chunk_type {
-        ChunkType::Sqpk(pc) => match pc.operation {
-            SqpkOperation::TargetInfo(t) => { if get_platform_string(&t.platform).len() == 3 { zz_spin(4); } else { zz_spin(200); } }
-            _ => { zz_spin(200); }
-        },
-        _ => { zz_spin(200); }
-    }
-}
-#[kani::proof]
-#[kani::unwind(160)]
-fn zz_v13() {
-    zz_patch_td();
-    let mut f = File::open("p.patch").unwrap();
-    f.seek(SeekFrom::Start(12 + 13 + 4)).unwrap();
-    let mut b = [0u8; 1];
-    std::io::Read::read_exact(&mut f, &mut b).unwrap();
-    if b[0] == 2 { zz_spin(4); } else { zz_spin(200); }
-}
-fn zz_plat(t: &SqpkTargetInfo) { if get_platform_string(&t.platform).len() == 3 { zz_spin(4); } else { zz_spin(200); } }
-#[kani::proof]
-#[kani::unwind(160)]
-fn zz_v14() {
-    let b = zz_t_bytes();
-    let mut c = Cursor::new(&b[12..]);
-    let op = SqpkOperation::read_le(&mut c).unwrap();
-    match op { SqpkOperation::TargetInfo(t) => zz_plat(&t), _ => zz_spin(200) }
-}
-#[kani::proof]
-#[kani::unwind(160)]
-fn zz_v15() {
-    let b = zz_t_bytes();
-    let mut c = Cursor::new(&b[8..]);
-    let pc = SqpkChunk::read(&mut c).unwrap();
-    match pc.operation { SqpkOperation::TargetInfo(t) => zz_plat(&t), _ => zz_spin(200) }
-}
-#[kani::proof]
-#[kani::unwind(160)]
-fn zz_v16() {
-    let b = zz_t_bytes();
-    let mut c = Cursor::new(&b[4..]);
-    let ct = ChunkType::read_le(&mut c).unwrap();
-    match ct { ChunkType::Sqpk(pc) => match pc.operation { SqpkOperation::TargetInfo(t) => zz_plat(&t), _ => zz_spin(200) }, _ => zz_spin(200) }
-}
-#[kani::proof]
-#[kani::unwind(160)]
-fn zz_v17() {
-    let b = zz_t_bytes();
-    let mut c = Cursor::new(&b[13..]);
-    let t = SqpkTargetInfo::read(&mut c).unwrap();
-    let op = SqpkOperation::TargetInfo(t);
-    let ct = ChunkType::Sqpk(SqpkChunk { size: 3, operation: op });
-    let r: Result<PatchChunk, binrw::Error> = Ok(PatchChunk { size: 1, chunk_type: ct, crc32: 0 });
-    match r.unwrap().chunk_type { ChunkType::Sqpk(pc) => match pc.operation { SqpkOperation::TargetInfo(t) => zz_plat(&t), _ => zz_spin(200) }, _ => zz_spin(200) }
-}
-fn zz_ti() -> SqpkTargetInfo {
-    let b = zz_t_bytes();
-    let mut c = Cursor::new(&b[13..]);
-    SqpkTargetInfo::read(&mut c).unwrap()
-}
-#[kani::proof]
-#[kani::unwind(160)]
-fn zz_v18() {
-    let op = SqpkOperation::TargetInfo(zz_ti());
-    match op { SqpkOperation::TargetInfo(t) => zz_plat(&t), _ => zz_spin(200) }
-}
-#[kani::proof]
-#[kani::unwind(160)]
-fn zz_v19() {
-    let op = SqpkOperation::TargetInfo(zz_ti());
-    match op { SqpkOperation::TargetInfo(t) => { if t.version == 0 { zz_spin(4); } else { zz_spin(200); } }, _ => zz_spin(200) }
-}
-#[kani::proof]
-#[kani::unwind(160)]
-fn zz_v20() {
-    let op = SqpkOperation::AddData(SqpkAddData { main_id: 1, sub_id: 2, file_id: 3, block_offset: 0, block_number: 128, block_delete_number: 0, block_data: vec![7u8; 5] });
-    match op { SqpkOperation::AddData(a) => { if a.block_data.len() == 5 { zz_spin(4); } else { zz_spin(200); } if a.main_id == 1 { zz_spin(4); } else { zz_spin(200); } core::mem::forget(a); }, _ => zz_spin(200) }
-}
-#[kani::proof]
-#[kani::unwind(160)]
-fn zz_v21() {
-    let t = zz_ti();
-    let o = Some(t);
-    match o { Some(t2) => zz_plat(&t2), None => zz_spin(200) }
-}
-#[kani::proof]
-#[kani::unwind(160)]
-fn zz_v22() {
-    let r: Result<SqpkOperation, binrw::Error> = Ok(SqpkOperation::TargetInfo(zz_ti()));
-    match r.unwrap() { SqpkOperation::TargetInfo(t) => zz_plat(&t), _ => zz_spin(200) }
-}
-#[kani::proof]
-#[kani::unwind(160)]
-fn zz_v23() {
-    let r: Result<SqpkOperation, u8> = Ok(SqpkOperation::TargetInfo(zz_ti()));
-    match r { Ok(SqpkOperation::TargetInfo(t)) => zz_plat(&t), _ => zz_spin(200) }
-}
-#[kani::proof]
-#[kani::unwind(160)]
-fn zz_v24() {
-    let r: Option<SqpkOperation> = Some(SqpkOperation::TargetInfo(zz_ti()));
-    match r { Some(SqpkOperation::TargetInfo(t)) => zz_plat(&t), _ => zz_spin(200) }
-}
-#[kani::proof]
-#[kani::unwind(160)]
-fn zz_v25() {
-    let c = SqpkChunk { size: 3, operation: SqpkOperation::TargetInfo(zz_ti()) };
-    match c.operation { SqpkOperation::TargetInfo(t) => zz_plat(&t), _ => zz_spin(200) }
-}
-#[kani::proof]
-#[kani::unwind(160)]
-fn zz_v26() {
-    let ct = ChunkType::Sqpk(SqpkChunk { size: 3, operation: SqpkOperation::TargetInfo(zz_ti()) });
-    match ct { ChunkType::Sqpk(pc) => match pc.operation { SqpkOperation::TargetInfo(t) => zz_plat(&t), _ => zz_spin(200) }, _ => zz_spin(200) }
 }
